@@ -16,11 +16,11 @@ Section C04Proofs.
   Hypothesis slice_pos : (0 < slice)%nat.
 
   (** The signature written while diffing (source read once through the fan-out, by a pool whose
-      readers deliver the chunkings [srcs]) and read back with ReadSignature equals what the
+      readers deliver the chunkings [srcs], with runs of at most maxE - 1 empty reads) and read back with ReadSignature equals what the
       stand-alone signer computes from the same file contents delivered in any other chunkings
       [srcs'] (which may contain empty reads): both are the reference signature. *)
   Theorem both_producers_agree_lemma srcs srcs' :
-    Forall src_nonempty srcs -> Forall (src_ok maxE) srcs' ->
+    Forall (src_fan_ok maxE) srcs -> Forall (src_ok maxE) srcs' ->
     map src_content srcs = map src_content srcs' ->
     exists stream,
       diff_time_signature bs weak strong maxE slice srcs = Some stream /\
